@@ -109,8 +109,16 @@ def check_beta(mon, theta):
 def shard(mon, tier, rng, shard_no, nshards):
     grid = np.arange(0.5, 180, 0.5)
     mine = grid[shard_no::nshards]
-    extra = np.round(rng.uniform(0.05, 179.95, size=4 if tier == "quick" else 400), 4)
+    extra = np.round(rng.uniform(0.05, 179.95, size=40 if tier == "quick" else 400), 4)
     tiny = [0.005, 0.02, 179.995] if shard_no == 0 else []  # the ends of the open interval (0, 180)
+    if shard_no == 1 % nshards:
+        # witnesses of D12 (SLSQP broke down silently on these cones; found by the thorough tier, seed 1)
+        tiny = tiny + [108.846, 73.3121, 105.4614, 153.9907]
+        W5 = np.array([[-0.6975060120497755, -0.7165789301636063], [-0.13678536621926007, -0.990600708453342], [-0.9732730410985271, -0.22965101234443688],
+                       [0.7095937400200072, -0.7046110445660206], [0.5198133909327105, -0.8542798362404658]])
+        check_cone(mon, "random5x2-d12", gen.make_order("W", W=W5), rng, "random2d")
+        check_cone(mon, "icecream46.3-K22", gen.make_order("icecream", theta=46.3, K=22), rng, "icecream")
+        mon.count("d12_witness_cones", 6)
     for th in list(mine) + list(extra) + tiny:
         th = float(th)
         order = gen.make_order("theta", theta=th)
